@@ -337,6 +337,30 @@ func checkSendOrderAs(c *Ctx, d Driver, rule string, stamps bool) {
 	if !stamps {
 		return
 	}
+	// the stamp keeps its monotonic reading: time.Since subtracts on the monotonic clock only when the stored value still carries
+	// it. Round, Truncate, UTC, Local and In strip it, and the RTT becomes a wall-clock difference that a clock step (NTP, VM
+	// resume) during the flight makes negative or hours long
+	for _, g := range ModReach(c.P, d.SendProbe) {
+		if core.FuncPkg(g) != core.FuncPkg(d.SendProbe) {
+			continue
+		}
+		for _, b := range g.Blocks {
+			for _, in := range b.Instrs {
+				call, ok := in.(*ssa.Call)
+				if !ok || call.Common().StaticCallee() == nil || len(call.Common().Args) == 0 {
+					continue
+				}
+				switch call.Common().StaticCallee().String() {
+				case "(time.Time).Round", "(time.Time).Truncate", "(time.Time).UTC", "(time.Time).Local", "(time.Time).In":
+				default:
+					continue
+				}
+				if src, ok := c.P.Def(call.Common().Args[0]).(*ssa.Call); ok && isTimeNow(src.Common()) {
+					R.Fail("R05.2", core.FuncName(g)+"#stamp-monotonic", call.Pos(), core.FuncName(g), "the send time is passed through "+call.Common().StaticCallee().String()+", which strips the monotonic clock reading: time.Since on it is a wall-clock difference, so a step of the system clock while the probe is in flight yields a negative or hugely inflated RTT")
+				}
+			}
+		}
+	}
 	// no time.Now after the write that feeds the table
 	for _, n := range nows {
 		for _, w := range writes {
